@@ -6,7 +6,7 @@
 From DV Require Import Base.Prelude Model.NameM Model.TokM Model.RdTextM.
 From DV Require Import Proofs.NameValid Proofs.NameOrder Proofs.NameText.
 From DV Require Import Proofs.TokEsc Proofs.TokTxt Proofs.TokWords Proofs.TokDec Proofs.TokHex
-     Proofs.TokShape Proofs.TokGeneric Proofs.TokUtf8 Proofs.RdTextName Proofs.RdTextAddr Proofs.RdTextBitmap Proofs.RdTextTypes Proofs.RdText Proofs.RdTextRel.
+     Proofs.TokShape Proofs.TokGeneric Proofs.TokUtf8 Proofs.RdTextName Proofs.RdTextAddr Proofs.RdTextBitmap Proofs.RdTextTypes Proofs.RdTextB32 Proofs.RdText Proofs.RdTextRel.
 Open Scope Z_scope.
 
 (* ------------------------------------------------------------------ character-strings *)
@@ -94,6 +94,12 @@ Print Assumptions hex_roundtrip.
 Theorem base64_roundtrip : forall d, all_bytes d = true -> b64decode (b64encode d) = Ok d.
 Proof. exact b64decode_b64encode. Qed.
 Print Assumptions base64_roundtrip.
+
+(* NSEC3 next hashed owner: base32hex, lower case, padding stripped on output and restored on input
+   (base64.b32encode / b32decode with the two translation tables) *)
+Theorem base32hex_roundtrip : forall d, all_bytes d = true -> b32hex_decode (b32hex_encode d) = Ok d.
+Proof. exact b32hex_roundtrip. Qed.
+Print Assumptions base32hex_roundtrip.
 
 (* _wordbreak with ANY chunk size and any separator made of blanks: the tokenizer's
    concatenate_remaining_identifiers returns the unbroken string (hex and base64 alphabets consist of
